@@ -4,7 +4,10 @@ import UxVerif.Model.Bounds
 /-
   Driver for C13.  One request judges one face:
 
-    C13.judge variant k n  (lon lat x y z)×n  (x y z)×n  latLo latHi lonLo lonHi
+    C13.judge variant k tol margin n  (lon lat x y z)×n  (x y z)×n  latLo latHi lonLo lonHi
+
+  (`tol`: tolerance of the five clauses in radians — 1e-9 for float64 / integer coordinates, scaled to
+   float32 round-off for float32 coordinates; `margin`: smallest pole determinant that counts as inside)
 
   * `(lon lat x y z)×n` — the corners as the implementation sees them (grid arrays; longitude
     already reduced by `np.mod(·, 2π)`), fed to the Lean transcription `faceBounds` (run at `Float`);
@@ -50,12 +53,12 @@ def pairOr (o : Option (Float × Float)) : Float × Float := o.getD (nan, nan)
 def handle (cmd : String) (args : List Int) : Option String :=
   match cmd with
   | "C13.judge" => do
-      let (v, k, cs, os, box) ← run (do
-        let v ← nat; let k ← nat; let n ← nat
+      let (v, k, tol, margin, cs, os, box) ← run (do
+        let v ← nat; let k ← nat; let tol ← float; let margin ← float; let n ← nat
         let cs ← many cornerP n
         let os ← many v3P n
         let a ← float; let b ← float; let c ← float; let d ← float
-        pure (v, k, cs, os, (a, b, c, d))) args
+        pure (v, k, tol, margin, cs, os, (a, b, c, d))) args
       let edges := edgesOf cs
       let fl := poleFlags fn (variantOf v) edges
       let hasN := fl.1
@@ -63,8 +66,6 @@ def handle (cmd : String) (args : List Int) : Option String :=
       let mb := faceBounds consts fn (variantOf v) edges
       let (mla, mlb) := pairOr mb.lat
       let (mlo, mhi) := pairOr mb.lon
-      let tol : Float := 1e-9
-      let margin : Float := 1e-9
       let vi := Oracle.judge k tol margin os box.1 box.2.1 box.2.2.1 box.2.2.2
       let vm := Oracle.judge k tol margin os mla mlb mlo mhi
       pure (" ".intercalate
